@@ -56,8 +56,15 @@ def generator_suite(chk, w, rule, maxlen, orders=(0, 1, 2), ns=None, fixed=True)
                 continue
             gen = o.v
             # supplied grid: accepted iff it equals the distinct knot values
-            for label, gv in (("matching", distinct), ("one-point-moved", distinct[:-1] + [distinct[-1] + 1]),
-                              ("extra-point", distinct + [distinct[-1] + 2]), ("prefix", distinct[:-1])):
+            variants = [("matching", distinct), ("one-point-moved", distinct[:-1] + [distinct[-1] + 1]),
+                        ("extra-point", distinct + [distinct[-1] + 2]), ("prefix", distinct[:-1]),
+                        ("extra-interior-point", distinct[:1] + [distinct[0] + 1] + distinct[1:]),
+                        ("extra-point-in-front", [distinct[0] - 2] + distinct),
+                        ("first-point-moved", [distinct[0] - 1] + distinct[1:])]
+            if len(distinct) >= 3:
+                variants += [("interior-point-missing", distinct[:1] + distinct[2:]),
+                             ("interior-point-moved", distinct[:1] + [distinct[1] + 1] + distinct[2:])]
+            for label, gv in variants:
                 g = w.mk_grid([Sc(x) for x in gv])
                 if g.kind != "val":
                     continue
